@@ -371,7 +371,7 @@ PTS = [0.0, 0.5, -0.5, 1e9, -1e9, 1e19, -1e19, 1e300, -1e300, float("nan"),
 
 
 def E_gridgeom(rng, tier):
-    for (nr, nc) in ((1, 1), (1, 5), (5, 1), (3, 4), (50, 60)):
+    for (nr, nc) in ((1, 1), (1, 5), (5, 1), (3, 4), (50, 60), (3, 0), (0, 3), (0, 0)):
         for csz in (1.0, 1e-300, 1e300, 0.05):
             def thunk(nr=nr, nc=nc, csz=csz):
                 g = _grid(nr, nc, csz=csz)
@@ -411,6 +411,44 @@ def E_gridgeom(rng, tier):
                 except Exception:
                     pass
         yield f"clip-poly|{nr}x{nc}", t2
+
+
+def E_gridedges(rng, tier):
+    """points exactly on (and one ulp either side of) the four edges of the extent, the
+    edge coordinate computed the way a user would write it (decimal product) as well
+    as the way the kernel does: any disagreement between the kernel's extent test and
+    its index arithmetic becomes a read outside the data"""
+    sizes = (0.05, 0.7, 0.1, 0.3, 1.0 / 3, 0.025, 1e-3, 7.0)
+    ncs = list(range(1, 41)) if tier == "thorough" else \
+        [1, 2, 3, 5, 7, 10, 17, 20, 23, 29, 34, 39, 40]
+    for csz in sizes:
+        for nc in ncs:
+            for (xll, yll) in ((0.0, 0.0), (0.1, -0.3), (-1.7, 144.05)):
+                def thunk(csz=csz, nc=nc, xll=xll, yll=yll):
+                    nr = 1 + nc % 4
+                    g = _grid(nr, nc, csz=csz, xll=xll, yll=yll)
+                    g.data = np.ones((nr, nc))
+                    ex = {round(xll + csz * nc, 10), xll + csz * nc, xll + nc * csz,
+                          float(np.float32(xll + csz * nc)), xll}
+                    ey = {round(yll + csz * nr, 10), yll + csz * nr, yll}
+                    xs = sorted({f(v) for v in ex for f in
+                                 (lambda z: z, lambda z: np.nextafter(z, np.inf),
+                                  lambda z: np.nextafter(z, -np.inf))})
+                    ys = sorted({f(v) for v in ey for f in
+                                 (lambda z: z, lambda z: np.nextafter(z, np.inf),
+                                  lambda z: np.nextafter(z, -np.inf))})
+                    rows = [yll + csz * (r + 0.5) for r in range(nr)]
+                    cols = [xll + csz * (c + 0.5) for c in (0, nc - 1)]
+                    pts = np.array([[x, y] for x in xs for y in rows + ys] +
+                                   [[x, y] for x in cols for y in ys])
+                    g.coord2cell(pts)
+                    g.slice(pts)
+                    for x in xs[:6]:
+                        try:
+                            g.clip(xll + csz * 0.2, yll + csz * 0.2, x, ys[-1])
+                        except Exception:
+                            pass
+                yield f"csz={csz:.3g}|nc={nc}|xll={xll}", thunk
 
 
 def E_pip(rng, tier):
@@ -635,7 +673,7 @@ ENTRIES = {
     "points_inside_polygon": E_pip, "catchment": E_catchment,
     "catchment-from_dict": E_catchment_fromdict, "accumulate-slope": E_accumulate,
     "delineate_river": E_river, "voronoi-intersect": E_voronoi_intersect,
-    "intersect-alignments": E_intersect_alignments,
+    "intersect-alignments": E_intersect_alignments, "grid-edges": E_gridedges,
 }
 
 
